@@ -38,10 +38,12 @@ pub struct Finding {
     pub msg: String,
     /// signature of a recorded known finding this deviation corresponds to (if any)
     pub known: Option<&'static str>,
+    /// a pure observation through the hooks: the tracker stays valid, so a check for another property goes on
+    pub soft: bool,
 }
 
 pub fn finding(tags: &'static [&'static str], msg: String) -> Finding {
-    Finding { tags, msg, known: None }
+    Finding { tags, msg, known: None, soft: false }
 }
 
 const LT_OWNED: [u16; 6] = [T_USERNAME, T_USERHASH, T_REALM, T_NONCE, T_PASSWORD_ALGORITHM, T_PASSWORD_ALGORITHMS];
@@ -172,6 +174,7 @@ pub fn check_packet(
                             tags: &["C08"],
                             msg: "retry after 438 carries no PASSWORD-ALGORITHMS / PASSWORD-ALGORITHM although algorithms were offered".into(),
                             known: Some("lt-retry-after-438-without-password-algorithms"),
+                            soft: false,
                         });
                     } else {
                         plain.push(RAttr::PasswordAlgorithms(list.clone()));
@@ -200,6 +203,7 @@ pub fn check_packet(
                         tags: &["C08"],
                         msg: "retry after the 401 challenge carries no MESSAGE-INTEGRITY(-SHA256); an RFC 8489 9.2.4 server answers 401 again".into(),
                         known: Some("lt-retry-after-401-without-integrity"),
+                        soft: false,
                     });
                 } else if s.algs.is_some() {
                     exp_sha = Some(key);
